@@ -20,7 +20,11 @@ and `src/pynguin/testcase/execution.py`:
   result only put on the queue when no `TracingAbortedException` escaped) ↔ `execOps`, `threadOutcome`;
 * `TestCaseExecutor.execute` (join with `min(max, per_statement * size)`, on a live thread `stop()`,
   second join with `max`, fresh `ExecutionResult(timeout=True)`; an empty queue also gives a timeout
-  result) ↔ `firstJoin`, `waitBound`, `executeResult`.
+  result) ↔ `firstJoin`, `waitBound`, `executeResult`;
+* the result hand-over of `execute` (`return_queue = Queue()` per execution, `result_queue.put(result)` as
+  the test thread's last action — possibly long after the execution was abandoned —, `get(block=False)`
+  only when the thread is dead after the first join) ↔ `H`, `HEv`, `hstep`, `hresults` (`QMode.perExecution`;
+  `QMode.shared` is the counterexample discipline).
 
 A *schedule* is any list of events `(thread, operation)`: the interleaving is not constrained in any
 way (any number of threads, abandoned threads that wake up at any later moment, code under test that
@@ -245,5 +249,97 @@ def firstJoin (maxT perStmt size : Nat) : Nat := min maxT (perStmt * size)
 
 /-- The longest time `execute` blocks in `join`: first join, then (thread alive) `join(max)`. -/
 def waitBound (maxT perStmt size : Nat) : Nat := firstJoin maxT perStmt size + maxT
+
+/-! ## The result hand-over of `TestCaseExecutor.execute` (`return_queue`)
+
+`execute` number `k` creates `return_queue = Queue()`, starts a thread with that queue, joins, and — only
+when the thread is dead after the *first* join — does `return_queue.get(block=False)` (`Empty` ⇒ a
+timeout result).  The thread of execution `k` does `result_queue.put(result)` as its very last action,
+with `result.execution_trace = tracer.get_trace()` (its own thread-local trace) and
+`result.exceptions` (a local of that thread).  An abandoned thread that is already past its last
+`check()` (slow after-statement observer of the last statement, slow context-manager exit, slow
+after-test-case observer) still performs its `put` — at any later moment of the history. -/
+
+/-- The payload of an `ExecutionResult`: the trace and the exceptions `(statement index, type id)`. -/
+structure Res where
+  trace : Trace
+  exc : List (Nat × Nat)
+  deriving DecidableEq, Repr, Inhabited
+
+/-- Which queue object execution `k` hands to its thread and reads. -/
+inductive QMode
+  /-- `return_queue = Queue()` inside `execute` — the code -/
+  | perExecution
+  /-- one queue for the executor's lifetime — the counterexample -/
+  | shared
+  deriving DecidableEq, Repr
+
+def QMode.qid : QMode → Nat → Nat
+  | .perExecution, k => k
+  | .shared, _ => 0
+
+/-- The state of a history: the tracer and the queues (FIFO, oldest first).  Every entry is tagged
+with the execution whose thread put it (ghost information, used by the theorems only). -/
+structure H where
+  tr : T
+  q : Nat → List (Nat × Res)
+
+/-- A new executor on tracer `s`: all queues empty. -/
+def H.init (s : T) : H := ⟨s, fun _ => []⟩
+
+def H.setQ (h : H) (i : Nat) (l : List (Nat × Res)) : H :=
+  { h with q := fun j => if j = i then l else h.q j }
+
+/-- The events of a history. -/
+inductive HEv
+  /-- a tracer call by some thread -/
+  | call (e : Ev)
+  /-- the thread `t` of execution `k` reaches `result_queue.put(result)` -/
+  | put (k : Nat) (t : Tid) (exc : List (Nat × Nat))
+  /-- the main thread of `execute` number `k` after the joins: `alive` = `timed_out` -/
+  | collect (k : Nat) (alive : Bool)
+  deriving Repr, Inhabited
+
+/-- What `execute` returns: a fresh `ExecutionResult(timeout=True)`, or the dequeued result (with
+the execution that produced it). -/
+inductive HResult
+  | timeout
+  | ok (producer : Nat) (r : Res)
+  deriving DecidableEq, Repr
+
+def hstep (m : QMode) (h : H) : HEv → H × Option (Nat × HResult)
+  | .call e => ({ h with tr := (step h.tr e.tid e.op).1 }, none)
+  | .put k t exc =>
+    (h.setQ (m.qid k) (h.q (m.qid k) ++ [(k, ⟨(h.tr.loc t).trace, exc⟩)]), none)
+  | .collect k alive =>
+    if alive then (h, some (k, .timeout))                      -- `if timed_out:` — the queue is not read
+    else match h.q (m.qid k) with
+      | [] => (h, some (k, .timeout))                          -- `except Empty:`
+      | (p, r) :: rest => (h.setQ (m.qid k) rest, some (k, .ok p r))
+
+/-- The state after a history. -/
+def hfinal (m : QMode) (h : H) : List HEv → H
+  | [] => h
+  | e :: es => hfinal m (hstep m h e).1 es
+
+/-- What the `execute` calls of a history returned, in order. -/
+def hresults (m : QMode) (h : H) : List HEv → List (Nat × HResult)
+  | [] => []
+  | e :: es => (hstep m h e).2.toList ++ hresults m (hstep m h e).1 es
+
+/-- The tracer schedule of a history. -/
+def callsOf : List HEv → List Ev
+  | [] => []
+  | .call e :: es => e :: callsOf es
+  | _ :: es => callsOf es
+
+/-- `hfinal` and `hresults` in one pass (what the driver runs; `hrun_eq`). -/
+def hrun (m : QMode) (h : H) (acc : List (Nat × HResult)) : List HEv → H × List (Nat × HResult)
+  | [] => (h, acc.reverse)
+  | e :: es =>
+    let r := hstep m h e
+    match r.2 with
+    | none => hrun m r.1 acc es
+    | some x => hrun m r.1 (x :: acc) es
 
 end PynguinModel.ThreadGuard
